@@ -33,14 +33,24 @@
 #define NKO 64
 #define NV 8
 
+/*
+ * Every element carries TWO hooks: the trees `bt` / `rb` are initialised with the
+ * offset of `n`, their swap partners `bt2` / `rb2` with the offset of `n2`, so that
+ * a swap exchanges trees anchored at different offsets (cf. harness/dlist.c).  An
+ * element is in at most one tree at a time.
+ */
 struct bte {
     int key;
     struct cstl_bintree_node n;
+    long pad;
+    struct cstl_bintree_node n2;
 };
 
 struct rbe {
     int key;
     struct cstl_rbtree_node n;
+    long pad;
+    struct cstl_rbtree_node n2;
 };
 
 static struct cstl_bintree bt, bt2;      /* bt2 / rb2: the other operand of `swap` (same element pool) */
@@ -62,12 +72,15 @@ enum { K_BT = 0, K_RB = 1, K_MAP = 2 };
 
 static long bt_id(const struct cstl_bintree_node * bn)
 {
-    const char * base = (const char *)bn - offsetof(struct bte, n);
-    ptrdiff_t d = base - (const char *)btpool;
+    ptrdiff_t d = (const char *)bn - (const char *)btpool, r;
     if (bn == NULL) {
         return 0;
     }
-    if (d < 0 || d >= (ptrdiff_t)sizeof(btpool) || d % (ptrdiff_t)sizeof(struct bte) != 0) {
+    if (d < 0 || d >= (ptrdiff_t)sizeof(btpool)) {
+        return -1;
+    }
+    r = d % (ptrdiff_t)sizeof(struct bte);
+    if (r != (ptrdiff_t)offsetof(struct bte, n) && r != (ptrdiff_t)offsetof(struct bte, n2)) {
         return -1;
     }
     return (long)(d / (ptrdiff_t)sizeof(struct bte));
@@ -75,12 +88,16 @@ static long bt_id(const struct cstl_bintree_node * bn)
 
 static long rb_id(const struct cstl_bintree_node * bn)
 {
-    const char * base = (const char *)bn - offsetof(struct rbe, n) - offsetof(struct cstl_rbtree_node, n);
-    ptrdiff_t d = base - (const char *)rbpool;
+    ptrdiff_t d = (const char *)bn - (const char *)rbpool, r;
     if (bn == NULL) {
         return 0;
     }
-    if (d < 0 || d >= (ptrdiff_t)sizeof(rbpool) || d % (ptrdiff_t)sizeof(struct rbe) != 0) {
+    if (d < 0 || d >= (ptrdiff_t)sizeof(rbpool)) {
+        return -1;
+    }
+    r = d % (ptrdiff_t)sizeof(struct rbe);
+    if (r != (ptrdiff_t)(offsetof(struct rbe, n) + offsetof(struct cstl_rbtree_node, n))
+        && r != (ptrdiff_t)(offsetof(struct rbe, n2) + offsetof(struct cstl_rbtree_node, n))) {
         return -1;
     }
     return (long)(d / (ptrdiff_t)sizeof(struct rbe));
@@ -338,11 +355,42 @@ static int cmp_rb(const void * a, const void * b, void * p)
     return h_cmp_result(((const struct rbe *)a)->key, ((const struct rbe *)b)->key);
 }
 
+/*
+ * The map's comparison function calls back into the library: it looks both keys up
+ * in a second map (`rankmap`, key -> rank, filled once per script outside the
+ * allocation ledger) and compares the ranks.  rank(k) = 2k+1, so the order is the
+ * order of the keys; a lookup nested inside another map operation is legitimate
+ * use of the library (a map ordered by a table kept in another map).
+ */
+static cstl_map_t rankmap;
+static int rankkey[NKO], rankval[NKO];
+
+static int cmp_rankkey(const void * a, const void * b, void * p)
+{
+    const int x = *(const int *)a, y = *(const int *)b;
+    (void)p;
+    return (x > y) - (x < y);
+}
+
+static int rank_of(int k)
+{
+    cstl_map_iterator_t it;
+    if (k < 0 || k >= NKO) {
+        return 2 * k + 1;
+    }
+    cstl_map_find(&rankmap, &k, &it);
+    return it.val != NULL ? *(const int *)it.val : -1000000;
+}
+
 static int cmp_key(const void * a, const void * b, void * p)
 {
     const int x = a ? *(const int *)a : 0, y = b ? *(const int *)b : 0;
+    int rx, ry;
     h_priv_check(p, 3);
-    return h_cmp_result(x, y);
+    /* sequenced: the lookup for the second key is the last nested one */
+    rx = rank_of(x);
+    ry = rank_of(y);
+    return h_cmp_result(rx, ry);
 }
 
 #define MAXEV (3 * NE + 8)
@@ -385,9 +433,9 @@ static void clr_bt(void * e, void * p)
     if (ncleared < NE) {
         cleared[ncleared++] = elem_id(K_BT, e);
     }
-    el->n.p = &poisonv[0];
-    el->n.l = &poisonv[1];
-    el->n.r = &poisonv[2];
+    el->n.p = el->n2.p = &poisonv[0];
+    el->n.l = el->n2.l = &poisonv[1];
+    el->n.r = el->n2.r = &poisonv[2];
     POISON(el, sizeof(*el));
 }
 
@@ -398,9 +446,9 @@ static void clr_rb(void * e, void * p)
     if (ncleared < NE) {
         cleared[ncleared++] = elem_id(K_RB, e);
     }
-    el->n.n.p = &poisonv[0];
-    el->n.n.l = &poisonv[1];
-    el->n.n.r = &poisonv[2];
+    el->n.n.p = el->n2.n.p = &poisonv[0];
+    el->n.n.l = el->n2.n.l = &poisonv[1];
+    el->n.n.r = el->n2.n.r = &poisonv[2];
     POISON(el, sizeof(*el));
 }
 
@@ -541,14 +589,21 @@ static void reset(void)
     H_POISON_OBJ(rb);
     H_POISON_OBJ(bt2);
     H_POISON_OBJ(rb2);
-    cstl_bintree_init(&bt2, cmp_bt, H_PRIV(1), offsetof(struct bte, n));
-    cstl_rbtree_init(&rb2, cmp_rb, H_PRIV(2), offsetof(struct rbe, n));
+    cstl_bintree_init(&bt2, cmp_bt, H_PRIV(1), offsetof(struct bte, n2));
+    cstl_rbtree_init(&rb2, cmp_rb, H_PRIV(2), offsetof(struct rbe, n2));
     H_POISON_OBJ(map);
     cstl_bintree_init(&bt, cmp_bt, H_PRIV(1), offsetof(struct bte, n));
     cstl_rbtree_init(&rb, cmp_rb, H_PRIV(2), offsetof(struct rbe, n));
     cstl_map_init(&map, cmp_key, H_PRIV(3));
     h_alloc_reset();
     h_alloc_arm(0);
+    /* the rank table used by cmp_key (allocated with the ledger disarmed) */
+    cstl_map_init(&rankmap, cmp_rankkey, NULL);
+    for (i = 0; i < NKO; i++) {
+        rankkey[i] = i;
+        rankval[i] = 2 * i + 1;
+        cstl_map_insert(&rankmap, &rankkey[i], &rankval[i], NULL);
+    }
 }
 
 static void op_map(int argc, char ** argv)
@@ -773,15 +828,18 @@ static void op(int argc, char ** argv)
         for (i = 0; i < ncleared; i++) {
             long id = cleared[i];
             if (id >= 1 && id <= NE) {
-                const struct cstl_bintree_node * n;
+                const struct cstl_bintree_node * n, * n2;
                 if (kind == K_BT) {
                     UNPOISON(&btpool[id], sizeof(btpool[id]));
                     n = &btpool[id].n;
+                    n2 = &btpool[id].n2;
                 } else {
                     UNPOISON(&rbpool[id], sizeof(rbpool[id]));
                     n = &rbpool[id].n.n;
+                    n2 = &rbpool[id].n2.n;
                 }
-                if (n->p != &poisonv[0] || n->l != &poisonv[1] || n->r != &poisonv[2]) {
+                if (n->p != &poisonv[0] || n->l != &poisonv[1] || n->r != &poisonv[2]
+                    || n2->p != &poisonv[0] || n2->l != &poisonv[1] || n2->r != &poisonv[2]) {
                     okp = 0;
                 }
             }
